@@ -128,7 +128,12 @@ def stepLine (st : St) (toks : List String) : St × String :=
      | some v =>
        (match v.pending.find? (fun s => (st.c.parts s).isSome) with
         | some s => (st, s!"live {s}")
-        | none => (v.pending.foldl (fun st s => (step st (.visitTry a s)).getD st) st, "ok"))
+        | none =>
+          -- (the harness reports vanished entries lazily: their per-item sections ran before the callback that has
+          -- just returned — when the service is shut down by now they ran before the shutdown, so they are dropped
+          -- here directly instead of through `visitTry`, which would meet the flag)
+          if st.done then ({ st with vis := upd st.vis a (some { v with pending := [] }) }, "ok")
+          else (v.pending.foldl (fun st s => (step st (.visitTry a s)).getD st) st, "ok"))
      | none => (st, "disabled"))
   | ["vcb", a, s, cont] => apply st (.visitCb a.toNat! s.toNat! (b01 cont)) (fun _ => "ok")
   | ["vend", a] => apply st (.visitEnd a.toNat!) (fun _ => "ok")
